@@ -125,14 +125,21 @@ def run(F, rep):
     rep.check(fresh, 'C08.M3', 'updateUnitMultiplier|fresh-child-accumulator', fu.where(in_loop[0]),
               'the accumulator `%s` handed to the recursive call is not reset for each unit child: the scale of earlier children leaks into later ones' % acc_arg['n'], 'declared (=0) inside the child loop')
     accs = U.accumulations(lambda t: t.get('k') == 'Ref' and t.get('dk') == 'local')
-    leafU = [a for a in accs if U.branch_of(a) == 'std']
-    nestU = [a for a in accs if U.branch_of(a) == 'nonstd']
-    if len(leafU) != 1 or len(nestU) != 1:
-        raise AnalysisBroken('updateUnitMultiplier: %d/%d accumulations on the standard/non-standard branch, 1/1 confirmed' % (len(leafU), len(nestU)))
-    pu_leaf, pu_nest = U.ev(leafU[0]['c'][1]), U.ev(nestU[0]['c'][1])
-    # the local total is applied once with the direction
+    # the local total: the local that is finally added to the out-parameter (times the direction)
     fin = [n for n in fu.walk() if n.get('k') == 'CAssign' and n.get('op') == '+=' and n['c'][0].get('k') == 'Ref' and n['c'][0].get('dk') == 'parm' and not U.in_loop(n)]
-    tgt = leafU[0]['c'][0]['n']
+    tot_d = None
+    for n in fin:
+        for x in walk(n['c'][1]):
+            if x.get('k') == 'Ref' and x.get('dk') == 'local' and any(a['c'][0].get('d') == x.get('d') for a in accs):
+                tot_d = x
+    if tot_d is None:
+        raise AnalysisBroken('updateUnitMultiplier: no local total that is accumulated in the child loop and added to the out-parameter afterwards')
+    leafU = [a for a in accs if a['c'][0].get('d') == tot_d['d']]
+    # one iteration of the child loop, executed symbolically on each side of isStandardUnitName(ref) (independent of where the `+=` is written)
+    pu_leaf, pu_nest = U.branch_contribution(tot_d['d'], 'std'), U.branch_contribution(tot_d['d'], 'nonstd')
+    if pu_leaf is None or pu_nest is None:
+        raise AnalysisBroken('updateUnitMultiplier: the body of the child loop could not be executed symbolically')
+    tgt = tot_d['n']
     okfin = [n for n in fin if U.ev(n['c'][1]) == Poly.sym('?' + tgt) * Poly.sym('d')]
     rep.check(len(okfin) >= 1, 'C08.M1', 'updateUnitMultiplier|direction-applied-once', fu.where(), 'the local total is not added as total*direction: %s' % [render(n) for n in fin], 'multiplier += local * direction')
     totalU = chain_bottomup(pu_leaf, pu_nest)
